@@ -136,6 +136,10 @@ func newC05Instance(kind string, opts int) *c05Instance {
 		gt.SymbolState().Add("≠", tokenizers.Symbol)
 		gt.SymbolState().Add("≤≥", tokenizers.Symbol)
 		gt.SymbolState().Add("→", tokenizers.Symbol)
+		// four-character symbols that share their first three characters (the prefixes are no symbols)
+		gt.SymbolState().Add("--->", tokenizers.Symbol)
+		gt.SymbolState().Add("---o", tokenizers.Symbol)
+		gt.SymbolState().Add("---x", tokenizers.Symbol)
 		gt.SetCharacterState('≠', '≥', gt.SymbolState())
 		gt.SetCharacterState('→', '→', gt.SymbolState())
 		gt.SetCharacterState(0x3000, 0x303f, gt.WhitespaceState())
@@ -447,6 +451,7 @@ var c05Pool = []string{
 	"-y", "-x - a", "-b + -h", "-g", "NOT f", "Abs(h) + Abs(a)", "a % 2 + b ^ 2", "b << 1", "h >> 1",
 	"Round(y) + Floor(y)", "y * 2", "Ceil(y) - y", "Abs(y) + Trunc(y)", "Hello, {{ name }}!", "text only",
 	"c = 'x'", "c = 'X'", "'abc' + c", "'ABC' + c", "{{Name}} x", "{{name}} X", "Fx() + a", "Gx(b)", "Gx(Fx(), c)", "v1 + v2 * total", "Total + rate", "\"qty[1]\" + \"qty{1}\"",
+	"y ^ 2", "x ^ 2 + y ^ b", "\ufeffid,city", "\ufeff", "a --->b ---o c", "--->", "---x ---o", "---",
 	"'abc", "\"abc", "/* x", "{{a", "{{#a}}x", "{{/a}}", "a +", "(a", "a)", "a[1", "f(", "1 2", "a,,b", ",", "\r\n", "\n\r", "\"x\",\"y\"\r\nz", "a;b", "😀", "a 😀 b", "{{ 😀 }}", "",
 }
 
